@@ -210,7 +210,7 @@ def props():
     add("valaxis", "major_unit", lambda r: r.choice([1, 0.25, 10, r.uniform(0.001, 1000)]), none_ok=True, bad=lambda r: r.choice([0, -1, -0.5, "x"]))
     add("valaxis", "minor_unit", lambda r: r.choice([1, 0.25, 10, r.uniform(0.001, 1000)]), none_ok=True, bad=lambda r: r.choice([0, -1, -0.5, "x"]))
     add("ticklabels", "number_format", lambda r: r.choice(["General", "0.00", "#,##0", '0.0"%"', "yyyy-mm-dd"]))
-    add("ticklabels", "number_format_is_linked", d_bool)
+    add("ticklabels", "number_format_is_linked", d_bool, none_ok=True)   # None removes @sourceLinked, which reads as linked (upstream's unit tests assign it)
     add("ticklabels", "offset", lambda r: r.randint(0, 1000), bad=lambda r: r.choice([-1, 1001, "5"]))
     add("barplot", "gap_width", lambda r: r.randint(0, 500), bad=lambda r: r.choice([-1, 501]))
     add("barplot", "overlap", lambda r: r.randint(-100, 100), bad=lambda r: r.choice([-101, 101]))
@@ -218,7 +218,7 @@ def props():
     add("plot", "has_data_labels", d_bool)
     add("plot", "vary_by_categories", d_bool)
     add("datalabels", "number_format", lambda r: r.choice(["General", "0.00", "#,##0", "0%"]))
-    add("datalabels", "number_format_is_linked", d_bool)
+    add("datalabels", "number_format_is_linked", d_bool, none_ok=True)
     add("datalabels", "position", lambda r: E(r, chart.XL_LABEL_POSITION, skip=("MIXED",)), none_ok=True, bad=lambda r: r.choice([chart.XL_LABEL_POSITION.MIXED, 99, "ctr"]))
     for n in ("show_category_name", "show_legend_key", "show_percentage", "show_series_name", "show_value"):
         add("datalabels", n, d_bool)
